@@ -45,7 +45,8 @@ LEAN_KEYWORDS = {'open', 'end', 'at', 'from', 'fun', 'let', 'have', 'show', 'in'
                  'match', 'where', 'instance', 'class', 'structure', 'def', 'theorem', 'example', 'local', 'private',
                  'variable', 'universe', 'namespace', 'section', 'import', 'export', 'mutual', 'macro', 'syntax', 'notation',
                  'prefix', 'infix', 'postfix', 'deriving', 'extends', 'for', 'unless', 'return', 'try', 'catch', 'finally',
-                 'using', 'calc', 'nomatch', 'Type', 'Prop', 'Sort', 'max', 'min', 'id', 'st', 'P', 'ofNat', 'ofInt', 'flit', 'K'}
+                 'using', 'calc', 'nomatch', 'Type', 'Prop', 'Sort', 'max', 'min', 'id', 'st', 'P', 'ofNat', 'ofInt', 'flit', 'K',
+                 'X', 'A', 'D', 'I', 'S', 'H', 'G', 'B', 'M', 'Sh'}     # the last row: type parameters of the families
 
 # sorts -> Lean types (inside a family whose header binds I S K)
 LEAN_TYPE = {'img': 'I', 'se': 'S', 'nat': 'Nat', 'int': 'Int', 'bool': 'Bool', 'K': 'K', 'vec': 'List K', 'mode': 'M',
@@ -53,6 +54,7 @@ LEAN_TYPE = {'img': 'I', 'se': 'S', 'nat': 'Nat', 'int': 'Int', 'bool': 'Bool', 
              'hist': 'H', 'pimg': 'G', 'str': 'String', 'mat': 'List (List K)', 'bimg': 'B',
              'optK': 'Option K', 'optD': 'Option D', 'dtype': 'D', 'shp': 'Sh',
              'slice': 'Int × Int', 'slicelist': 'List (Int × Int)', 'shape_pos': 'List Int × List (Int × Int)'}
+LEAN_TYPE['fld1'] = 'Nat → K'
 LIST_ELEM = {'natlist': 'nat', 'intlist': 'int', 'vec': 'K', 'slicelist': 'slice'}
 
 # guard helpers whose calls (as expression statements) are dropped: translator/guards.py extracts them
@@ -132,6 +134,9 @@ class Family:
             par = lambda t: f'({t})' if '→' in t else t
             ty = ' → '.join([par(LEAN_TYPE[a]) for a in p.args] + [f'Option ({LEAN_TYPE[p.ret]})' if p.raises else par(LEAN_TYPE[p.ret])])
             srcs = ', '.join(sorted(k for k, q in self.prims.items() if q.field == p.field))
+            if py == 'np.meshgrid':
+                out += [f'  /-- `{srcs}` (first result) -/', f'  {p.field}_x : {ty}', f'  /-- `{srcs}` (second result) -/', f'  {p.field}_y : {ty}']
+                continue
             out.append(f'  /-- `{srcs}` -/')
             out.append(f'  {p.field} : {ty}')
         return out
@@ -244,6 +249,11 @@ class Tr:
                 if s == 'vec':
                     return f'(List.map (fun t => -t) {a})', 'vec'
                 raise self.err(node, f'unary minus on sort {s}')
+            if isinstance(node.op, ast.UAdd):
+                a, s = self._E(node.operand, env, want)
+                if s in ('K', 'int', 'nat', 'natlit'):
+                    return a, s
+                raise self.err(node, f'unary plus on sort {s}')
             if isinstance(node.op, ast.Not):
                 a = self.cond(node.operand, env)
                 return f'(!{a})', 'bool'
@@ -346,6 +356,8 @@ class Tr:
                 a, s = self._E(node.left, env, want)
                 if s in ('K', 'int', 'nat'):
                     return f'({a} * {a})', s
+                if s == 'fld':
+                    return f'(fun p => ({a} p) * ({a} p))', 'fld'
             if 'np.power' in self.fam.prims:
                 # `x ** e` through the reviewed power primitive: elementwise on an array seen pointwise; an int exponent is embedded
                 a, sa = self._E(node.left, env)
@@ -822,6 +834,18 @@ class Tr:
                 return [pad + f'match {txt} with', pad + '| none => none', pad + f'| some {r} =>',
                         pad + f'  let {lname(names[0])} := {r}.1', pad + f'  let {lname(names[1])} := {r}.2'] \
                     + self.S(rest, env2, k, ind + 1)
+            if isinstance(val, ast.Call) and dotted(val.func) == 'np.meshgrid' and len(val.args) == 2 and not val.keywords \
+                    and len(names) == 2 and 'np.meshgrid' in self.fam.prims:
+                # `X, Y = np.meshgrid(x, y)`: X[i, j] = x[j], Y[i, j] = y[i] (numpy's default 'xy' indexing)
+                p = self.fam.prims['np.meshgrid']
+                a_, _ = self.E(val.args[0], env, p.args[0])
+                b_, _ = self.E(val.args[1], env, p.args[1])
+                env2 = dict(env)
+                env2[names[0]] = env2[names[1]] = p.ret
+                t1, t2 = self.fresh('mg'), self.fresh('mg')
+                return [pad + f'let {t1} := P.{p.field}_x {a_} {b_}', pad + f'let {t2} := P.{p.field}_y {a_} {b_}',
+                        pad + f'let {lname(names[0])} := {t1}', pad + f'let {lname(names[1])} := {t2}'] \
+                    + self.S(rest, env2, k, ind)
             raise self.err(s, 'tuple assignment outside the subset')
         if isinstance(s, (ast.Assign, ast.AugAssign)):
             if isinstance(s, ast.Assign):
@@ -1270,6 +1294,13 @@ WAVE = Family(
         '.shape:arr': Prim('shape', ['arr'], 'intlist'),
     }, prop='C17')
 
+CIRCLE = Family(
+    'circle_se', ['K', 'X'], '[Add K] [Sub K] [Mul K] [Div K] [Neg K] [LT K] [DecidableLT K] [LE K] [DecidableLE K]', 'CirclePrims',
+    {
+        'np.arange': Prim('arange', ['K', 'K'], 'fld1', doc='`np.arange(a, b)`: entry k is a + k (k < b - a)'),
+        'np.meshgrid': Prim('meshgrid', ['fld1', 'fld1'], 'fld', doc='two fields `meshgrid_x`, `meshgrid_y`: X[i, j] = x[j], Y[i, j] = y[i]'),
+    }, extra_params=EMBED, prop='C16')
+
 HISTO = Family(
     'histogram thresholds', ['H', 'G'], '', 'HistPrims',
     {
@@ -1326,13 +1357,14 @@ TARGETS = [
     Target('colors.py', 'xyz2lab', [('xyz', 'arr'), ('dtype', 'optD')], 'arr', COLORS2, locals={'f': (['fld'], 'fld')}),
     Target('colors.py', 'rgb2lab', [('rgb', 'arr'), ('dtype', 'optD')], 'arr', COLORS2),
     Target('colors.py', 'rgb2sepia', [('rgb', 'fld')], 'fld', COLORS2),
+    Target('morph.py', 'circle_se', [('radius', 'K')], 'bfld', CIRCLE),
     # falls off the end after 63 unsuccessful steps: Python returns None and both callers fail on the tuple unpacking
     Target('convolve.py', '_wavelet_center_compute', [('oshape', 'intlist'), ('border', 'int')], 'shape_pos', WAVE,
            drop={'dtype', 'cval'}, localsorts={'position': 'slicelist'}, fallthrough_none=True),
     Target('convolve.py', 'wavelet_center', [('f', 'arr'), ('border', 'int'), ('dtype', 'dtype'), ('cval', 'K')], 'arr', WAVE, raises=True),
     Target('convolve.py', 'wavelet_decenter', [('w', 'arr'), ('oshape', 'intlist'), ('border', 'int')], 'arr', WAVE, raises=True),
 ]
-FAMILIES = [MORPH, CONV, THRESH, HISTO, LAPL, RC, SOFT, EXTREMA, STRETCH, COLORS, COLORS2, WAVE]
+FAMILIES = [MORPH, CONV, THRESH, HISTO, LAPL, RC, SOFT, EXTREMA, STRETCH, COLORS, COLORS2, WAVE, CIRCLE]
 
 
 def _find_function(tree, name):
